@@ -105,7 +105,9 @@ func Bytes(name string, n uint64) []byte {
 		}
 	}
 	r.initial[name] = init
-	initialOf[&b[:1][0]] = name
+	if n > 0 {
+		initialOf[&b[0]] = name
+	}
 	return b
 }
 
